@@ -3,7 +3,7 @@ package flight13
 //symgo:pkg github.com/pion/dtls/v3/internal/flight/flight13
 //symgo:param H3VARY quick=1 thorough=2
 //symgo:param H3SRTP quick=2 thorough=3
-//symgo:param H3CID quick=2 thorough=3
+//symgo:param H3CID quick=3 thorough=4
 //symgo:param H3HRR quick=2 thorough=2
 //symgo:replace github.com/pion/dtls/v3/pkg/crypto/elliptic.GenerateKeypair zzH3GenerateKeypair
 //symgo:replace github.com/pion/dtls/v3/pkg/crypto/elliptic.GenerateKeypairForPeer zzH3GenerateKeypairForPeer
@@ -224,6 +224,8 @@ func zzH3CIDGen(name string, mode int) func() []byte {
 		cid := zzsymBytes(name, 2)
 		return func() []byte { return zzH3Clone(cid) }
 	case 2:
+		return func() []byte { return nil } // what the library's own OnlySendCIDGenerator() returns
+	case 3:
 		return func() []byte { return []byte{} }
 	}
 	return nil
@@ -253,7 +255,7 @@ func zzH3Dim(name string, dim, n, dflt int) int {
 // DTLS 1.3 hello-level agreement (flight13). A DTLS 1.3 client and server are configured independently along
 // five dimensions - TLS 1.3 cipher-suite lists (4 menus per side), key-exchange group lists (4 menus per side:
 // x25519/P-256 in both orders, P-256 only, P-384 only), SRTP profile lists (0..H3SRTP-1 arbitrary codes per
-// side), connection-id generators (none / 2 arbitrary bytes; thorough: empty) per side, and cookie exchange
+// side), connection-id generators (none / 2 arbitrary bytes / send-only generator returning nil; thorough: empty slice) per side, and cookie exchange
 // (HelloRetryRequest) on/off with client-certificate request on/off; quick varies one dimension at a time,
 // thorough every pair. The real flight0Generate, flight1Generate, flight0Parse, [flight2Generate, flight1Parse,
 // flight3Generate, flight2Parse,] flight4Generate and flight3Parse run over the real codecs and caches; the
